@@ -114,7 +114,46 @@ bool Sched::drain_one(int t) {
     return true;
 }
 
+// PCT-style priority schedule (Burckhardt et al.): random distinct thread priorities, always run the highest-priority runnable thread,
+// `depth` priority-change points at random step indices (the running thread drops below everybody).  A thread that spins (many
+// consecutive steps of its own without changing anything) is treated as yielding: it drops below everybody, so the thread it waits
+// for gets to run.  Finds windows that need one thread to stall for hundreds of steps, which uniform random switching never does.
+static long g_est_len = 1500;
+int Sched::run_pct(uint64_t seed, long maxsteps, int depth) {
+    std::mt19937_64 rng(seed);
+    int nt = n();
+    std::vector<long> prio(nt);
+    std::vector<int> perm(nt); for (int i = 0; i < nt; i++) perm[i] = i;
+    for (int i = nt - 1; i > 0; i--) std::swap(perm[i], perm[rng() % (i + 1)]);
+    for (int i = 0; i < nt; i++) prio[perm[i]] = depth + 1 + i;
+    std::vector<long> cps; for (int k = 0; k < depth; k++) cps.push_back((long)(rng() % (uint64_t)(g_est_len > 0 ? g_est_len : 1)));
+    int budget = depth;                   // focus-biased change points still available
+    long low = 0;                         // next "below everybody" priority (decreasing)
+    std::vector<int> idle(nt, 0);
+    int rc;
+    for (;;) {
+        bool alldone = true; int best = -1; bool wbuf = false;
+        for (auto* lt : lts) { int s = lt->state.load(); if (s != ST_DONE) alldone = false; if (!lt->buf.empty()) wbuf = true;
+            if (s == ST_HOOK && (best < 0 || prio[lt->id] > prio[best])) best = lt->id; }
+        if (alldone) { rc = RC_OK; break; }
+        if (wbuf && (best < 0 || (rng() % 4) == 0)) { for (auto* lt : lts) if (!lt->buf.empty()) { drain_one(lt->id); break; } continue; }
+        if (best < 0) { rc = RC_DEADLOCK; break; }
+        if (steps > maxsteps) { rc = RC_STEPLIMIT; break; }
+        if (steps - last_change > stall_limit) { rc = RC_STALL; break; }
+        long before = last_change;
+        // focus-biased change points: right after an access to a tracked (protocol) address the thread is pre-empted with probability 1/3
+        bool focus_cp = budget > 0 && g_ntracked > 0 && lts[best]->pend.addr && is_tracked(lts[best]->pend.addr) && (rng() % 3) == 0;
+        step(best);
+        if (focus_cp) { prio[best] = --low; --budget; }
+        if (last_change != before || last_change == steps) idle[best] = 0; else if (++idle[best] >= 40) { prio[best] = --low; idle[best] = 0; }
+        for (long cp : cps) if (cp == steps) { prio[best] = --low; break; }
+    }
+    g_est_len = (g_est_len * 7 + steps) / 8;
+    return rc;
+}
+
 int Sched::run_random(uint64_t seed, long maxsteps, int switch_den) {
+    if (switch_den < 0) return run_pct(seed, maxsteps, -switch_den);
     std::mt19937_64 rng(seed);
     int cur = -1;
     for (;;) {
